@@ -14,12 +14,15 @@ RULE = ("operation histories (<= 30 ops quick, <= 45 thorough, plus an observati
         "thorough adds every sequence of <= 3 symbolic mutators from two base namespaces; "
         "non-trivial = the history removes, re-adds, reorders or copies (bits differ from list positions or live in two namespaces)")
 MODELLED_NOT_VERIFIED = [
-    "C10: Taxon objects are opaque ids with a string label; labels are non-empty strings over ASCII and Latin-1 letters (Python "
-    "str.lower is re-implemented for that repertoire and differential-tested on every generated label); None labels, custom sort "
-    "keys, negative bitmasks, annotations, TaxonNamespacePartition/Mapping and label_taxon_map are outside the model",
-    "C10: remove_taxon_label/discard_taxon_label with first_match_only=True are run on the implementation only (ops rmlf/dlf): the "
-    "current code raises TypeError before touching the namespace, which no clause of the statement speaks about; the harness "
-    "accepts 'nothing changed' or 'exactly the first match left' and tells the model which of the two happened",
+    "C10: Taxon objects are opaque ids with a string label; the model's scope is non-empty strings over ASCII and Latin-1 "
+    "(harness predicate in_scope = Lean InScope; theorems case_folding_scope / out_of_scope_lookup say what the folding is and "
+    "that it is the identity beyond; Python str.lower is differential-tested on every generated label).  Histories with "
+    "non-Latin-1 labels (final sigma, dotted I, titlecase digraphs, Cyrillic, CJK) are run on the implementation and judged by "
+    "the oracle only, never sent to the model.  None labels (a Taxon without a label has nothing to match), custom sort keys, "
+    "negative bitmasks, annotations, TaxonNamespacePartition/Mapping and label_taxon_map are outside model and check",
+    "C10: remove_taxon_label/discard_taxon_label with first_match_only=True (ops rmlf/dlf): the current code raises TypeError "
+    "before touching the namespace once a label matches, which no clause of the statement speaks about; the model has both this "
+    "refusal and the documented behaviour (first match leaves; theorem remove_first_spec) and is told which one was observed",
     "C10: the comparison with the model distinguishes only ImmutableTaxonNamespaceError from other documented refusals "
     "(KeyError/IndexError/LookupError/ValueError are one class) and does not look at all_taxa_bitmask except where it is asked for",
     "C10: nexusprocessing.bitmask_as_newick_string is modelled in its repaired form (members placed by their own bit); "
@@ -36,7 +39,11 @@ EXPLANATION = ("Theorems about the state machine the driver runs, for arbitrary 
                "tbm_btl_ops_exact, observers, in_op, refusals, require_idempotent; renderings: mask_roundtrip(+_exact: duplicate-free, "
                "ascending by bit), newick_spec, newick_any_mask, nwk_op_text, bitstring_spec, "
                "token_equivalence / token_injective / token_injective_no_blank (which labels can share a NEXUS token) and "
-               "newick_names_exactly; immutable_spec(+_history). None is _partial.")
+               "newick_names_exactly; text level: text_determines_tokens(+_flat) (a local tokenizer reads back the printed tokens), "
+               "token_wellformed, nwk_text_names_exactly (the printed string names exactly the taxa, for non-empty labels and "
+               "preserve_spaces or quote_underscores); remove_first_spec (first_match_only=True: the TypeError refusal of the "
+               "code as it is, and the documented first-match removal); scope: case_folding_scope, out_of_scope_lookup, "
+               "in_scope_match; immutable_spec(+_history). None is _partial.")
 
 MUTATORS = {"rmlf", "dlf", "mkns", "add", "addtaxa", "new", "newtaxa", "req", "rm", "del", "rml", "dl", "sort", "rev", "clear", "relabel",
             "copy", "shallow", "deep", "setmut", "setcs", "mk"}
@@ -69,8 +76,8 @@ def enc_op(op):
         return ["new", str(op[1]), hex6(op[2])]
     if k == "newtaxa":
         return ["newtaxa", str(op[1])] + [hex6(l) for l in op[2]]
-    if k in ("rmlf", "dlf"):       # never sent to the model as such (see run_history); this is the case key only
-        return [k, str(op[1]), cflag(op[2]), hex6(op[3])]
+    if k in ("rmlf", "dlf"):       # the 5th field (which behaviour was observed) is added by run_history
+        return [k, str(op[1]), cflag(op[2]), hex6(op[3])] + ([b01(op[4])] if len(op) > 4 else [])
     if k in ("req", "rml", "dl", "get", "find", "has"):
         return [k, str(op[1]), cflag(op[2]), hex6(op[3])]
     if k in ("sort", "setmut", "setcs"):
@@ -544,6 +551,9 @@ class Oracle(object):
             want = before_ids - {id(members[op[2]])}
         elif kind in ("rml", "dl"):
             want = before_ids - {id(t) for t in self.matches(members, ecs(op[2]), op[3])}
+        elif kind in ("rmlf", "dlf"):
+            hit = self.matches(members, ecs(op[2]), op[3])
+            want = before_ids - ({id(hit[0])} if hit else set())
         elif kind == "clear":
             want = set()
         elif kind in ("sort", "rev", "setmut", "setcs", "get", "find", "gets", "has", "hasall", "bm", "acc", "tbm", "lbm",
@@ -740,8 +750,34 @@ class Oracle(object):
 
 
 # ---------------------------------------------------------------- one history: implementation, oracle, model
-def run_history(ctx, dendropy, opgen, pending, fixed_ops=None, kind="random"):
-    """opgen(world, k) -> next op or None; or fixed_ops = a recorded list (replay)"""
+def in_scope(l):
+    """the labels the model speaks about: non-empty strings of ASCII / Latin-1 characters (no None label, no character whose
+    case folding the model does not have - theorem case_folding_scope)"""
+    return isinstance(l, str) and l != "" and all(ord(c) < 256 for c in l)
+
+
+def op_labels(op):
+    k = op[0]
+    if k == "mk":
+        return [op[1]]
+    if k == "mkns":
+        return [x for x in op[2] if not isinstance(x, int)]
+    if k in ("new", "relabel"):
+        return [op[2]]
+    if k in ("newtaxa",):
+        return list(op[2])
+    if k in ("req", "rml", "dl", "rmlf", "dlf", "get", "find", "has"):
+        return [op[3]]
+    if k in ("hasall", "lbm"):
+        return list(op[3])
+    if k == "gets":
+        return list(op[4])
+    return []
+
+
+def run_history(ctx, dendropy, opgen, pending, fixed_ops=None, kind="random", compare=None):
+    """opgen(world, k) -> next op or None; or fixed_ops = a recorded list (replay).
+    compare=False: implementation and oracle only (labels outside the model's scope); None: decided by the labels"""
     w = World(dendropy)
     ops, outs, mops = [], [], []
     orc = Oracle(ctx, w, ops)
@@ -763,16 +799,15 @@ def run_history(ctx, dendropy, opgen, pending, fixed_ops=None, kind="random"):
         after = orc.snap()
         mop = op
         if op[0] in ("rmlf", "dlf"):
-            # remove/discard_taxon_label(first_match_only=True): the statement does not say what they do; the current code
-            # refuses (TypeError) once there is a match.  Accepted: nothing changes, or exactly the first match leaves -
-            # the model is told which of the two happened, every other outcome shows up as a disagreement of the dumps.
-            bm_, _, _, bcs = before[op[1]]
-            same = len(after[op[1]][0]) == len(bm_) and all(x is y for x, y in zip(after[op[1]][0], bm_))
-            first = orc.matches(bm_, bcs if op[2] is None else op[2], op[3])
-            mop = ["all", op[1]] if (same or not first) else ["rm", op[1], w.tid[id(first[0])]]
-            if isinstance(raw, TypeError):
+            # remove/discard_taxon_label(first_match_only=True): the model has both behaviours the code can show once a label
+            # matches - the refusal of the code as it is (TypeError, nothing changes; `fixed` = 0) and the documented one
+            # (the first match leaves; `fixed` = 1) - and is told which one was observed; return value and members are then
+            # compared as for every other op.
+            fixed = not isinstance(raw, TypeError) or isinstance(raw, w.err.ImmutableTaxonNamespaceError)
+            mop = [op[0], op[1], op[2], op[3], fixed]
+            if not fixed:
                 ctx.count("first_match_only raises TypeError (side finding, state unchanged)")
-            ret = "-"
+                ret = "TypeError"
         mops.append(mop)
         outs.append(ret + " # " + w.dump())
         orc.after(k, op, ret, raw, before, after)
@@ -783,7 +818,15 @@ def run_history(ctx, dendropy, opgen, pending, fixed_ops=None, kind="random"):
     ctx.case([enc_op(o) for o in ops], nontrivial, sample={"ops": ops[:12], "n_ops": len(ops)}, kind=kind)
     for o in ops:
         ctx.count("op:" + o[0])
-    pending.append((hist_line(mops), ops, outs))
+    scoped = all(in_scope(l) for o in ops for l in op_labels(o))
+    if compare is None:
+        compare = scoped
+    if compare and not scoped:
+        raise AssertionError("a label outside the model's scope was about to be sent to the model")
+    if compare:
+        pending.append((hist_line(mops), ops, outs))
+    else:
+        ctx.count("histories with labels outside the model's scope: implementation + oracle only")
     return orc
 
 
@@ -917,18 +960,29 @@ def member_mask(rng, ns):
     return m
 
 
+WIDE_LABELS = ["Σ", "σ", "ς", "ΑΣ", "ας", "İ", "i̇", "I", "ı", "ǅ", "ǆ", "Ω", "ω", "Я", "я", "中", "ẞ", "ß", "Éa", "éa",
+               "Ω b", "ω_b"]
+
+
 class RandomGen(object):
-    def __init__(self, rng, max_ops):
+    def __init__(self, rng, max_ops, wide=False):
         self.rng = rng
         self.n_ops = rng.randint(3, max_ops)
-        pool = [rand_label(rng) for _ in range(rng.randint(2, 6))]
+        if wide:
+            pool = [rng.choice(WIDE_LABELS) for _ in range(rng.randint(2, 6))] + [rand_label(rng)]
+        else:
+            pool = [rand_label(rng) for _ in range(rng.randint(2, 6))]
+        self.wide = wide
         pool += [case_variant(rng, l) for l in pool if rng.random() < 0.6]
         self.pool = pool
         self.burst = None
         self.follow = []
 
     def label(self):
-        return self.rng.choice(self.pool) if self.rng.random() < 0.9 else rand_label(self.rng)
+        l = self.rng.choice(self.pool) if self.rng.random() < 0.9 else rand_label(self.rng)
+        if self.wide and self.rng.random() < 0.3:
+            l = self.rng.choice([l.upper(), l.lower(), l.swapcase()]) or l
+        return l
 
     def cflag(self):
         return self.rng.choice([None, None, True, False])
@@ -1181,7 +1235,7 @@ def string_functions(ctx, dendropy, rng, count):
 def run(ctx):
     dendropy = __import__("dendropy")
     rng = ctx.rng
-    ctx.set_budget(25, 600)
+    ctx.set_budget(20, 600)
     pending = []
     string_functions(ctx, dendropy, rng, ctx.pick(300, 3000))
     n_hist = ctx.pick(5000, 40000)
@@ -1198,6 +1252,9 @@ def run(ctx):
         flush(ctx, pending)
         ctx.extra["exhaustive_small_scope"] = ("all %d sequences of <= 3 of %d symbolic mutators from %d base namespaces, each followed by "
                                                "the full observation burst" % (count, len(SYMBOLS), len(BASES)))
+    # labels outside the model's scope (non-Latin-1 case folding): implementation and oracle only
+    for _ in range(ctx.pick(300, 3000)):
+        run_history(ctx, dendropy, RandomGen(rng, 20, wide=True), pending, kind="oracle-only", compare=False)
     for _ in range(n_hist):
         if ctx.out_of_time():
             break
